@@ -197,6 +197,11 @@ def random_avp(rng, entries, depth=0, max_depth=3, code_vendor_entry=None):
 
 def build(recipe):
     """recipe -> real Avp via the public constructor Avp.new"""
+    if recipe.get("raw"):       # no dictionary entry: the generic class, flags as given
+        a = Avp(code=recipe["code"], vendor_id=recipe["vendor"], payload=recipe["value"])
+        a.is_mandatory = bool(recipe["M"])
+        a.is_private = bool(recipe["P"])
+        return a
     if recipe["kind"] == "group":
         return Avp.new(recipe["code"], recipe["vendor"], value=[build(k) for k in recipe["value"]], is_mandatory=recipe["M"], is_private=recipe["P"])
     return Avp.new(recipe["code"], recipe["vendor"], value=recipe["value"], is_mandatory=recipe["M"], is_private=recipe["P"])
